@@ -30,6 +30,36 @@ def canon_ty(a):
     else: dk = 'basic'
     return {'dk': dk, 'shape': bool(a.shape), 'tag': int(a.vtag) if a.vtag is not None else 0}
 
+MEMBERS = ['c', 'arr', 'idx', 'proc']
+MEMBER_WANT = {'c': 'KScalar', 'arr': 'KArray', 'idx': 'KScalar', 'proc': 'KProc'}
+MEMBER_TY = {'c': 'basic', 'arr': 'basic+shape', 'idx': 'basic', 'proc': 'proc'}
+MEMBER_MODULE = '''
+module c13_types
+  implicit none
+  type my_t
+    real :: c
+    real :: arr(3)
+    integer :: idx
+  contains
+    procedure :: proc => my_proc
+  end type my_t
+contains
+  subroutine my_proc(self)
+    class(my_t), intent(inout) :: self
+    self%c = 1.0
+  end subroutine my_proc
+end module c13_types
+'''
+
+def canon_member_ty(a):
+    from loki.types import BasicType, DerivedType, ProcedureType
+    if a is None: return None
+    dt = a.dtype
+    if isinstance(dt, ProcedureType): return 'proc'
+    if isinstance(dt, DerivedType): return 'derived'
+    if dt == BasicType.DEFERRED: return 'deferred'
+    return 'basic+shape' if a.shape else 'basic'
+
 CLS = {'ProcedureSymbol': 'KProc', 'DerivedTypeSymbol': 'KDerivedType', 'Array': 'KArray', 'Scalar': 'KScalar', 'DeferredTypeSymbol': 'KDeferred'}
 
 def ty_model(t):
@@ -60,7 +90,7 @@ class C13(Property):
             'several spellings; after the whole history every symbol\'s class and .type and every table are compared with the model; a history is non-trivial when it '
             'contains a table or type update after an attached symbol of the same folded name exists; distinct = distinct op lists')
     modelled_not_verified = [
-        'derived-type members (parent%member look-up through typedefs) and case_sensitive symbols are not modelled',
+        'derived-type members (parent%member look-up through typedefs) are covered by the direct oracle only (kind `member`), not by the Coq model; case_sensitive symbols are not modelled',
         'SymbolAttributes contents are abstracted to (dtype kind, has shape, a version tag)',
         'weak references to scopes (a collected scope) are outside the model',
     ]
@@ -71,6 +101,25 @@ class C13(Property):
             if dims and t and (t['dk'] == 'proc' or (t['dk'] == 'derived:tname' and name.lower() == 'tname')):
                 continue   # ProcedureSymbol/DerivedTypeSymbol constructors take no subscripts
             yield {'kind': 'classify', 'name': name, 'ty': t, 'dims': dims}
+        # derived-type members (parent%member look-up through typedefs): oracle-only stream (not in the Coq model)
+        nm = 40 if tier == 'quick' else 400
+        for _ in range(nm):
+            steps = []
+            known = rng.random() < 0.3
+            for _ in range(rng.randint(2, 7)):
+                r = rng.random()
+                if r < 0.45:
+                    steps.append(['create', rng.choice(MEMBERS), rng.choice(['name', 'parent', 'gdtm']), rng.random() < 0.5])
+                elif r < 0.7:
+                    steps.append(['typedef', rng.random() < 0.7])
+                elif r < 0.8:
+                    steps.append(['refresh'])
+                else:
+                    steps.append(['clone', rng.randrange(8)])
+            steps.append(['typedef', True])
+            for m in rng.sample(MEMBERS, 2):
+                steps.append(['create', m, rng.choice(['name', 'parent', 'gdtm']), rng.random() < 0.5])
+            yield {'kind': 'member', 'known0': known, 'steps': steps, 'nested_scope': rng.random() < 0.4}
         n = 250 if tier == 'quick' else 4000
         for _ in range(n):
             ns = rng.randint(1, 3)
@@ -95,9 +144,53 @@ class C13(Property):
                     ops.append(['rescope', rng.randrange(nsym), rng.randrange(ns)]); nsym += 1
             yield {'kind': 'history', 'nscopes': ns, 'ops': ops}
 
+    def run_member(self, case):
+        """derived-type members: a%m created by name before/after the typedef of `a` becomes known"""
+        from loki import Module, Scope, SymbolAttributes, DerivedType, Variable
+        from loki.frontend import FP
+        module = Module.from_source(MEMBER_MODULE, frontend=FP)
+        typedef = module['my_t']
+        outer = Scope()
+        scope = Scope(parent=outer) if case['nested_scope'] else outer
+        def set_a(known):
+            dt = DerivedType(name='my_t', typedef=typedef) if known else DerivedType(name='my_t')
+            # the type is recorded in the scope the symbols are attached to (an attached symbol copies an inherited
+            # entry into its own scope, so an update of the enclosing scope alone would be shadowed)
+            Variable(name='a', scope=scope, type=SymbolAttributes(dt))
+        set_a(case['known0'])
+        known = case['known0']
+        syms, log = [], []
+        for st in case['steps']:
+            k = st[0]
+            if k == 'typedef':
+                set_a(st[1]); known = known or st[1]
+                if not st[1]: known = False
+            elif k == 'refresh':
+                _ = Variable(name='a', scope=scope).variable_map
+            elif k == 'clone':
+                if syms: syms.append(syms[st[1] % len(syms)].clone())
+            elif k == 'create':
+                a = Variable(name='a', scope=scope)
+                m = st[1]
+                try:
+                    if st[2] == 'name': v = Variable(name='a%' + (m.upper() if st[3] else m), scope=scope)
+                    elif st[2] == 'parent': v = Variable(name='a%' + m, scope=scope, parent=a)
+                    else:
+                        if not known: continue
+                        v = a.get_derived_type_member(m)
+                except (AssertionError, AttributeError, KeyError) as e:
+                    log.append({'m': m, 'how': st[2], 'known': known, 'cls': 'raise:' + type(e).__name__, 'ty': None}); continue
+                syms.append(v)
+                log.append({'m': m, 'how': st[2], 'known': known, 'cls': CLS[type(v).__name__]})
+        # all .type queries afterwards
+        final = [{'name': v.name.lower(), 'cls': CLS[type(v).__name__], 'ty': canon_member_ty(v.type)} for v in syms]
+        return {'log': log, 'final': final, 'known': known}
+
     def run_impl(self, case):
         from loki.expression import symbols as sym
         from loki.types import Scope
+        if case['kind'] == 'member':
+            return self.run_member(case)
         if case['kind'] == 'classify':
             kw = {'name': case['name'], 'type': mk_ty(case['ty'])}
             if case['dims']: kw['dimensions'] = (sym.IntLiteral(1),)
@@ -139,6 +232,8 @@ class C13(Property):
         return out
 
     def model_term(self, case, out):
+        if case['kind'] == 'member':
+            return None
         if 'cls' not in out and 'syms' not in out:
             raise ValueError('implementation raised: %r' % (out,))
         if case['kind'] == 'classify':
@@ -150,6 +245,20 @@ class C13(Property):
     def oracle(self, case, out):
         if '__exception__' in out:
             return 'implementation raised %s: %s' % (out['__exception__'], out.get('msg'))
+        if case['kind'] == 'member':
+            for e in out['log']:
+                if e['cls'].startswith('raise:'):
+                    return 'creating a%%%s (%s) raised %s' % (e['m'], e['how'], e['cls'][6:])
+                if e['known'] and e['cls'] != MEMBER_WANT[e['m']]:
+                    return 'a%%%s created (%s) while the typedef of a is recorded is a %s, the recorded type makes it a %s' % (e['m'], e['how'], e['cls'], MEMBER_WANT[e['m']])
+            if out['known']:
+                for f in out['final']:
+                    if '%' not in f['name']:
+                        continue   # created by full name without parent: a free-standing symbol named after the component
+                    m = f['name'].split('%')[-1]
+                    if f['ty'] != MEMBER_TY[m]:
+                        return 'symbol %s attached to the scope reports type %r after the typedef of a was recorded, expected %r' % (f['name'], f['ty'], MEMBER_TY[m])
+            return None
         if case['kind'] == 'classify':
             t, dims, name = case['ty'], case['dims'], case['name']
             if t and t['dk'] == 'proc': exp = 'KProc'
@@ -214,6 +323,7 @@ class C13(Property):
         return None
 
     def nontrivial_key(self, case, out):
+        if case['kind'] == 'member': return str(case['steps'])
         if case['kind'] == 'classify': return ('c', case['name'], str(case['ty']), case['dims'])
         ops = case['ops']
         have = set()
